@@ -52,6 +52,15 @@ CHECKS.update({
    technique="exhaustive handler-decision sequences x 64 callback placements x sync/async/awaitable variants on real entry points; protocol oracle",
    text="All sequences of SLEEP/DEFER/ABORT over the retries of a run, all 64 placements of handler/before_sleep/sleeper at policy level, call level, both or neither with distinct stub identities: one consultation of the effective handler per granted retry with the computed delay; SLEEP => before_sleep then one sleeper call then the next attempt; DEFER => SCHEDULED with next_sleep_s; ABORT => ABORTED; call-level overrides policy-level.",
    note="attempt_timeout_s=None; max_attempts 4 (5 thorough)"),
+
+ "C12": dict(engine="E1 seq (differential)", cat="model_checking", ref="6 C12",
+   technique="exhaustive answer-script tree on one entry point, every script replayed on the 23 other entry points under a structure-checking chooser; normalised-trace equality",
+   text="Every environment-answer script of Retry.execute (all outcome sequences, other answers as bounded deviations) is replayed on each of 24 entry points (Retry, Policy, RetryPolicy, from_config, context managers, @retry, async twins): they must ask the same questions in the same order and produce the same invocations, strategy calls, sleeps, events, budget and breaker interactions; call and execute deliveries must correspond.",
+   note="attempt_timeout_s=None; classifier calls and attempt hooks are outside the compared trace (not listed by the statement); deviation bound 1 quick / 2 thorough"),
+ "C15": dict(engine="E1 seq (differential)", cat="fault_enumeration", ref="6 C15",
+   technique="exhaustive hook-fault injection (hook x exception type x invocation index / always) replayed against the silent run of the same answer script; normalised-trace equality",
+   text="For every baseline run and each of on_metric, on_log, before_sleep: raise at each single invocation index and always, for 7 exception types; the faulty run must equal the silent run in invocations, sleeps, delivered result, breaker and budget updates and in what the other hook and the timeline received.",
+   note="attempt_timeout_s=None; hooks raise subclasses of Exception; one faulty hook per run (two thorough)"),
 })
 PENDING = {
 }
